@@ -19,6 +19,7 @@ Rank(x) == (IF x.d = "o" THEN 0 ELSE 100) + (IF x.h = "h1" THEN 0 ELSE 10) + x.a
 Contents == {<<>>} \cup {<<x>> : x \in HT} \cup {<<p[1], p[2]>> : p \in {q \in HT \X HT : Rank(q[1]) <= Rank(q[2])}}
 NodeReqs == {[op |-> "AddInvoice", h |-> h, a |-> a] : h \in HashSet, a \in 1..3}
         \cup {[op |-> "AddKeysend", h |-> h, a |-> a] : h \in HashSet, a \in 1..2}
+        \cup {[op |-> "DeclineInvoice", h |-> h, a |-> 2] : h \in HashSet}
         \cup {[op |-> "Fulfill", h |-> h] : h \in HashSet}
         \cup {[op |-> "Tick"], [op |-> "Heartbeat"], [op |-> "Restart"]}
 \* per step: the node-level requests and, per channel, the requests for three random contents
